@@ -20,6 +20,7 @@ RULE = (
     "processor, an async processor raising before its internal yield and one raising after it, plus fail-on-every-event and fail-at-shutdown, "
     "placed before or after a healthy recorder. Non-trivial = the failing processor actually raised; distinct = digest of (program shape, "
     "runner, failure index, variant, placement)."
+    ' The injected node failure (if any) is of one of four kinds incl. an exception without arguments.'
 )
 ASSUMPTIONS = [
     "healthy recorder's stream is compared exactly (canonical ids) for the sync runner and as a canonical span tree for the async runner, where a yielding failing processor may legitimately shift the interleaving of concurrent siblings",
